@@ -15,7 +15,7 @@
 
 use fuse_backend_rs::abi::fuse_abi::Opcode;
 
-//@inputs x:u32
+//@inputs opcode_from: x:u32
 #[kani::proof]
 fn opcode_from() {
     let x: u32 = kani::any();
